@@ -1,8 +1,12 @@
 package main
 
 import (
+	"crypto/sha1"
 	"fmt"
+	"go/ast"
 	"go/types"
+	"golang.org/x/tools/go/ssa"
+	"os"
 	"sort"
 	"strings"
 )
@@ -175,6 +179,7 @@ type FieldInfo struct {
 }
 
 type Universe struct {
+	frozen   bool
 	prog     *Program
 	structs  map[string]*StructInfo // by sort name
 	typeIDs  map[string]int         // types.TypeString -> id
@@ -208,6 +213,80 @@ func newUniverse(p *Program) *Universe {
 			u.typeID(types.NewPointer(tn.Type()))
 		}
 	}
+	// ... and every type the code boxes into an interface or asserts out of one, and every type a contract clause
+	// names in typeis[T]/typeid[T], in a fixed order: the scripts of a function are then the same whichever other
+	// functions a run verifies (the type table is part of every script)
+	for _, k := range p.sortedFuncKeys() {
+		fn := p.Funcs[k]
+		for _, b := range fn.Blocks {
+			for _, in := range b.Instrs {
+				switch t := in.(type) {
+				case *ssa.MakeInterface:
+					u.typeID(t.X.Type())
+				case *ssa.TypeAssert:
+					if _, isI := t.AssertedType.Underlying().(*types.Interface); !isI {
+						u.typeID(t.AssertedType)
+					}
+				}
+			}
+		}
+	}
+	for _, pp := range sortedKeys(p.Pkgs) {
+		pk := p.Pkgs[pp]
+		if !strings.HasPrefix(pp, modPath) || pk.TypesInfo == nil {
+			continue
+		}
+		for _, f := range pk.Syntax {
+			ast.Inspect(f, func(n ast.Node) bool {
+				ix, ok := n.(*ast.IndexExpr)
+				if !ok {
+					return true
+				}
+				if id, ok := ix.X.(*ast.Ident); ok && (id.Name == "typeis" || id.Name == "typeid") {
+					if tv, ok := pk.TypesInfo.Types[ix.Index]; ok && tv.Type != nil {
+						if _, isI := tv.Type.Underlying().(*types.Interface); !isI {
+							u.typeID(tv.Type)
+						}
+					}
+				}
+				return true
+			})
+		}
+	}
+	// a few types reach the table through spec-level conversions only
+	u.typeID(types.Typ[types.UntypedNil])
+	u.typeID(types.Typ[types.Uint8])
+	u.typeID(types.Universe.Lookup("byte").Type())
+	u.typeID(types.Universe.Lookup("rune").Type())
+	for _, pp := range sortedKeys(p.Pkgs) {
+		if !strings.HasPrefix(pp, modPath) {
+			continue
+		}
+		sc := p.Pkgs[pp].Types.Scope()
+		for _, nm := range sc.Names() {
+			if tn, ok := sc.Lookup(nm).(*types.TypeName); ok && !tn.IsAlias() {
+				if _, isI := tn.Type().Underlying().(*types.Interface); isI {
+					u.typeID(tn.Type())
+				}
+			}
+		}
+	}
+	// addresses of package-level (and ghost) variables and ids of functions, also in a fixed order
+	for _, pp := range sortedKeys(p.Pkgs) {
+		if !strings.HasPrefix(pp, modPath) {
+			continue
+		}
+		sc := p.Pkgs[pp].Types.Scope()
+		for _, nm := range sc.Names() {
+			if v, ok := sc.Lookup(nm).(*types.Var); ok {
+				u.funcID("global:" + v.Pkg().Path() + "." + v.Name())
+			}
+		}
+	}
+	for _, k := range p.sortedFuncKeys() {
+		u.funcID("func:" + k)
+	}
+	u.frozen = true
 	return u
 }
 
@@ -251,6 +330,9 @@ func (u *Universe) typeID(t types.Type) int {
 	id := len(u.typeIDs) + 1
 	u.typeIDs[k] = id
 	u.typeByID[id] = t
+	if u.frozen && os.Getenv("GOVC_LATE_TYPES") != "" {
+		fmt.Fprintf(os.Stderr, "late type id %d: %s\n", id, k)
+	}
 	return id
 }
 
@@ -570,12 +652,9 @@ func (s *Script) strLit(v string) Term {
 	if v == "" {
 		return Term{"str_empty", SStr}
 	}
-	id, ok := s.u.strLits[v]
-	if !ok {
-		id = len(s.u.strLits) + 1
-		s.u.strLits[v] = id
-	}
-	name := fmt.Sprintf("strlit_%d", id)
+	// the symbol is derived from the content, so that scripts do not depend on which literals other functions use
+	sum := sha1.Sum([]byte(v))
+	name := fmt.Sprintf("strlit_%x", sum[:6])
 	if !s.declared["lit:"+name] {
 		s.declared["lit:"+name] = true
 		s.emit("(declare-const %s Str) ; %q", name, v)
